@@ -49,7 +49,7 @@ def plan(tier, seed):
 
 def floors(tier):
     return {"distinct_nontrivial": 200, "unwind.close": 200, "unwind.exc": 50, "op:full": 500, "op:take": 100,
-            "op:abandon": 100, "op:drop": 100, "op:boom_raised": 50, "op:the": 50, "cls:dup_domain": 50,
+            "op:abandon": 100, "op:drop": 100, "op:boom_raised": 50, "cls:domain_walk_raised": 30, "op:the": 50, "cls:dup_domain": 50,
             "cls:caching_off": 100, "cache.check.hit": 500, "cls:ruletree_history": 100, "cls:shared_expression_pool": 60, "cls:twin:nexttree": 30, "cls:twin:kwvar": 30, "cls:variable_whose_domain_has_no_instance": 60, "cls:twin:concat": 25, "cls:twin:flatsub": 25, "cls:twin:sharedconc": 20, "cls:twin:blockstyle": 20, "cls:twin:shareddomain": 40, "cls:scale:big_pool": 60, "cls:twin:ix_with_empty_collections": 400, "cls:twin:ix": 40}
 
 
@@ -174,7 +174,15 @@ def cases(spec, ctx):
                 ops.append([kind, qi, rng.randint(1, 4)])
             else:
                 ops.append([kind, qi])
-        dup = rng.random() < 0.25
+        flaky = rng.random() < 0.15
+        if flaky:
+            # the given domains are re-iterable user collections whose WALK raises once when armed: every query can "boom"
+            for p_ in pool:
+                p_["fault"] = True
+            ops = [(["boom", o[1], rng.randint(1, 5)] if o[0] == "take" and rng.random() < 0.5 else o) for o in ops]
+            if not any(o[0] == "boom" for o in ops):
+                ops.insert(rng.randrange(len(ops)), ["boom", rng.randrange(len(pool)), rng.randint(1, 4)])
+        dup = (not flaky) and rng.random() < 0.25
         no_instance = rng.randrange(nv) if (not dup and rng.random() < 0.08) else None
         if no_instance is not None:
             # (and-only conditions: a disjunction whose other alternative does not mention the empty variable is DESIGN 9.5)
@@ -183,7 +191,7 @@ def cases(spec, ctx):
                 p_["fault"] = False
             ops = [o if o[0] != "boom" else ["take", o[1], 1] for o in ops]
         yield {"world": world, "kinds": kinds, "pool": pool, "ops": ops, "caching": rng.random() < 0.65,
-               "dup": [rng.randrange(4), rng.randrange(4)] if dup else None, "no_instance": no_instance}
+               "dup": [rng.randrange(4), rng.randrange(4)] if dup else None, "no_instance": no_instance, "flaky_dom": flaky}
 
 
 def _doms(case, world):
@@ -200,6 +208,8 @@ def _doms(case, world):
         # one variable's given domain holds no object of its type (objects of that type exist elsewhere in the process)
         i = case["no_instance"]
         doms[i] = list(world["Q" if case["kinds"][i] == "P" else "P"])
+    if case.get("flaky_dom"):
+        doms = [D.FlakyCollection(d) for d in doms]
     return doms
 
 
@@ -734,6 +744,8 @@ def check_case(case, ctx):
         ctx.cls("op:" + entry[0])
         if entry[0] == "boom" and entry[2] == "raised":
             ctx.cls("op:boom_raised")
+            if case.get("flaky_dom"):
+                ctx.cls("cls:domain_walk_raised")
         if entry[0] in ("take", "abandon", "drop") or (entry[0] == "boom" and entry[2] == "raised"):
             interrupted = True
         if entry[0] == "full" and interrupted:
